@@ -5,7 +5,7 @@ from . import c03
 
 PROP = 'C02'
 QUOTAS = {
-    'quick': {'cheap': 2, 'medium': 3, 'heavy': 1, 'F1:cheap': 10, 'F2:medium': 10, 'F4:medium': 6, 'R:cheap': 4, 'R:medium': 6, 'R:heavy': 1},
+    'quick': {'cheap': 1, 'medium': 2, 'heavy': 0, 'F1:cheap': 6, 'F2:medium': 6, 'F4:medium': 4, 'R:cheap': 2, 'R:medium': 4},
     'thorough': {'cheap': 150, 'medium': 90, 'heavy': 16, 'F1:cheap': 400, 'F2:medium': 140, 'F4:medium': 60,
                  'R:cheap': 60, 'R:medium': 70, 'R:heavy': 16},
 }
